@@ -693,3 +693,21 @@ def _fd_x(xs, method, bc, basis, cslots, q, free):
         _FD_CACHE.clear()
     _FD_CACHE[key] = ref
     return ref
+
+# ---- call-order plane (executed by mc/core.py in fresh interpreters, see mc/props/_hist_common.py): the result of
+# a call must not depend on which other calls (other dtype / method / size / options) were made before it
+_HIST_LABELS = [('float32', 'cspline', 0), ('float64', 'cspline', 0), ('float64', 'cspline', 1), ('float64', 'linear', 0), ('float32', 'linear', 1)]
+HISTORY = {"labels": ["/".join(str(x) for x in c) for c in _HIST_LABELS], "tol": [0.0001, 1e-12, 1e-12, 1e-12, 0.0001],
+           "depth": {"quick": 2, "thorough": 3},
+           "prelude": r'''import torch, xitorch
+from xitorch.interpolate import Interp1D
+CALLS = %r
+def do(i):
+    dtn, method, grid = CALLS[i]
+    dt = getattr(torch, dtn)
+    x = torch.linspace(0.0, 2.0, 7, dtype=dt) if grid == 0 else torch.tensor([0.0, 0.2, 0.5, 1.1, 1.3, 1.8, 2.0], dtype=dt)
+    y = torch.sin(2.0 * x) + 0.3 * x
+    xq = torch.linspace(0.05, 1.95, 9, dtype=dt)
+    kw = {"bc_type": "natural"} if method == "cspline" else {}
+    return Interp1D(x, y, method=method, **kw)(xq).double().reshape(-1).tolist()
+''' % (_HIST_LABELS,)}
